@@ -18,11 +18,12 @@ package main
 
 import (
 	"fmt"
-	"runtime"
 	"go/constant"
 	"go/token"
 	"go/types"
+	"runtime"
 	"sort"
+	"regexp"
 	"strconv"
 	"strings"
 
@@ -56,7 +57,7 @@ type AV struct {
 var Unk = AV{K: KUnk}
 
 func Sym(name string) AV {
-	if len(name) > 160 {
+	if len(name) > 320 {
 		return Unk
 	}
 	return AV{K: KSym, S: name}
@@ -254,19 +255,23 @@ type Machine struct {
 	// ForkTables: a lookup in a constant table with a key known only by name is explored once per entry (the scanner's and
 	// the parser's dispatch tables); off for models that iterate over data (a transliteration loop would multiply)
 	ForkTables bool
-	MaxDepth   int
-	MaxStates  int
-	Inline     func(callee *ssa.Function) bool
-	visited    map[string]int
-	OnVisit    func(st *State, b *ssa.BasicBlock) int // first visit of an abstract state at a block entry: returns a node id
-	OnRevisit  func(st *State, node int)              // the state was seen before (at node)
-	States     int
-	Paths      int
-	Aborted    string
-	conds      map[string]condInfo
-	work       []*State
-	Silent     []string // descriptions of event-free cycles (filled by models that care)
+	// Unroll: how many nested activations of one function are inlined beyond the first (0: recursion is not followed)
+	Unroll    int
+	MaxDepth  int
+	MaxStates int
+	Inline    func(callee *ssa.Function) bool
+	visited   map[string]int
+	OnVisit   func(st *State, b *ssa.BasicBlock) int // first visit of an abstract state at a block entry: returns a node id
+	OnRevisit func(st *State, node int)              // the state was seen before (at node)
+	States    int
+	Paths     int
+	Aborted   string
+	conds     map[string]condInfo
+	work      []*State
+	Silent    []string // descriptions of event-free cycles (filled by models that care)
 }
+
+var stdSizes = types.SizesFor("gc", "amd64")
 
 func NewMachine(p *Prog, model Model) *Machine {
 	m := &Machine{P: p, Model: model, MaxDepth: 6, MaxStates: 400000, visited: map[string]int{}, conds: map[string]condInfo{},
@@ -366,6 +371,29 @@ func (m *Machine) enterBlock(st *State, b *ssa.BasicBlock) bool {
 	}
 	for i, ph := range phis {
 		fr.Vals[ph] = phiVals[i]
+	}
+	if ctr := rangeLikeCounter(b); ctr != nil {
+		// the counter of `for k := 0; k < len(xs); k++` is a fresh symbolic index per iteration, like a range loop's
+		name := "rangeidx:" + fr.ID + ":" + ctr.Name()
+		m.forget(st, name)
+		fr.Vals[ctr] = Sym(name)
+	}
+	if ctr, list := revRangeCounter(b); ctr != nil {
+		// `for k := len(xs) - 1; k >= 0; k--`: a symbolic index per iteration; on entry from outside the loop the index
+		// is known to be >= 0 when the path has put an element into xs
+		lv := m.eval(st, fr, list)
+		name := "revidx:" + fr.ID + ":" + ctr.Name() + "~" + lv.String()
+		m.forget(st, name)
+		fr.Vals[ctr] = Sym(name)
+		if from != nil && !b.Dominates(from) {
+			if lv.K == KSym {
+				if lb, ok := m.lowerBound(st, AV{K: KSym, S: "len(" + lv.S + ")"}); ok && lb >= 1 {
+					st.Facts["lb:"+name] = IntV(0)
+				}
+			} else if lv.K == KNil {
+				st.Facts["ub:"+name] = IntV(-1)
+			}
+		}
 	}
 	k := st.key()
 	if prev, seen := m.visited[k]; seen {
@@ -779,7 +807,14 @@ func (m *Machine) step(st *State, fr *Frame, in ssa.Instruction) {
 		}
 		m.Model.Instr(m, st, x, []AV{addr, val})
 	case *ssa.MakeInterface:
-		set(x, ev(x.X))
+		a := ev(x.X)
+		if a.K == KSym && !isIfaceT(x.X.Type()) {
+			// the dynamic type of the interface value is the static type of what was boxed
+			if _, known := st.Facts["type:"+a.S]; !known {
+				st.Facts["type:"+a.S] = StrV(types.TypeString(x.X.Type(), func(p *types.Package) string { return p.Name() }))
+			}
+		}
+		set(x, a)
 	case *ssa.ChangeType:
 		set(x, ev(x.X))
 	case *ssa.ChangeInterface:
@@ -791,7 +826,10 @@ func (m *Machine) step(st *State, fr *Frame, in ssa.Instruction) {
 			ft, tt := x.X.Type().Underlying(), x.Type().Underlying()
 			fb, ok1 := ft.(*types.Basic)
 			tb, ok2 := tt.(*types.Basic)
-			if ok1 && ok2 && (fb.Info()&types.IsNumeric != 0) && (tb.Info()&types.IsNumeric != 0) && (fb.Info()&types.IsFloat) == (tb.Info()&types.IsFloat) {
+			if ok1 && ok2 && (fb.Info()&types.IsInteger != 0) && (tb.Info()&types.IsInteger != 0) && stdSizes.Sizeof(tb) < stdSizes.Sizeof(fb) {
+				// a narrowing conversion keeps the low bits only: byte(r) equals r for some runes and not for others
+				set(x, Sym("trunc:"+types.TypeString(x.Type(), nil)+"("+a.String()+")"))
+			} else if ok1 && ok2 && (fb.Info()&types.IsNumeric != 0) && (tb.Info()&types.IsNumeric != 0) && (fb.Info()&types.IsFloat) == (tb.Info()&types.IsFloat) {
 				set(x, a)
 			} else {
 				set(x, Sym("conv:"+types.TypeString(x.Type(), nil)+"("+a.String()+")"))
@@ -1172,6 +1210,12 @@ func (m *Machine) binop(st *State, x *ssa.BinOp, a, b AV) AV {
 			res.Neg = true
 		}
 		return res
+	case token.LSS, token.GEQ, token.GTR, token.LEQ:
+		if dec, ok := m.decideByLowerBound(st, op, a, b); ok {
+			return BoolV(dec)
+		}
+	}
+	switch op {
 	case token.LSS, token.GEQ:
 		res := Sym("(" + a.String() + " < " + b.String() + ")")
 		if res.K == KSym && op == token.GEQ {
@@ -1187,6 +1231,134 @@ func (m *Machine) binop(st *State, x *ssa.BinOp, a, b AV) AV {
 	default:
 		return Sym("(" + a.String() + " " + op.String() + " " + b.String() + ")")
 	}
+}
+
+var reLenOf = regexp.MustCompile(`^len\((.+)\)$`)
+var reOffset = regexp.MustCompile(`^\((.+) ([-+]) (\d+)\)$`)
+
+// lowerBound: a value the integer expression is known not to be below — a constant, the length of a list (never
+// negative; at least n after n elements were appended to a fresh list on this path), or such a value plus or minus a
+// constant.
+func (m *Machine) lowerBound(st *State, v AV) (int64, bool) {
+	switch v.K {
+	case KInt:
+		return v.I, true
+	case KSym:
+		if v.Neg {
+			return 0, false
+		}
+		if f, ok := st.Facts["lb:"+v.S]; ok && f.K == KInt {
+			return f.I, true
+		}
+		if mm := reLenOf.FindStringSubmatch(v.S); mm != nil && balanced(mm[1]) {
+			if f, ok := st.Facts["lenlb:"+mm[1]]; ok && f.K == KInt {
+				return f.I, true
+			}
+			return 0, true
+		}
+		if mm := reOffset.FindStringSubmatch(v.S); mm != nil && balanced(mm[1]) {
+			if base, ok := m.lowerBound(st, AV{K: KSym, S: mm[1]}); ok {
+				k, _ := strconv.ParseInt(mm[3], 10, 64)
+				if mm[2] == "-" {
+					return base - k, true
+				}
+				return base + k, true
+			}
+		}
+	}
+	return 0, false
+}
+
+func balanced(s string) bool {
+	d := 0
+	for _, c := range s {
+		switch c {
+		case '(':
+			d++
+		case ')':
+			d--
+			if d < 0 {
+				return false
+			}
+		}
+	}
+	return d == 0
+}
+
+// decideByLowerBound: an ordering test between a bounded-below expression and a constant that the bound already settles
+// (i := len(xs) - 1; i >= 0 after an element has been appended to xs on this path).
+func (m *Machine) decideByLowerBound(st *State, op token.Token, a, b AV) (bool, bool) {
+	if b.K == KInt && a.K == KSym && !a.Neg {
+		if ub, ok := st.Facts["ub:"+a.S]; ok && ub.K == KInt {
+			switch op {
+			case token.LSS:
+				if ub.I < b.I {
+					return true, true
+				}
+			case token.GEQ:
+				if ub.I < b.I {
+					return false, true
+				}
+			case token.GTR:
+				if ub.I <= b.I {
+					return false, true
+				}
+			case token.LEQ:
+				if ub.I <= b.I {
+					return true, true
+				}
+			}
+		}
+	}
+	if b.K == KInt && a.K == KSym {
+		lb, ok := m.lowerBound(st, a)
+		if !ok {
+			return false, false
+		}
+		switch op {
+		case token.LSS: // a < c
+			if lb >= b.I {
+				return false, true
+			}
+		case token.GEQ:
+			if lb >= b.I {
+				return true, true
+			}
+		case token.GTR: // a > c
+			if lb > b.I {
+				return true, true
+			}
+		case token.LEQ:
+			if lb > b.I {
+				return false, true
+			}
+		}
+	}
+	if a.K == KInt && b.K == KSym {
+		lb, ok := m.lowerBound(st, b)
+		if !ok {
+			return false, false
+		}
+		switch op {
+		case token.LSS: // c < b
+			if lb > a.I {
+				return true, true
+			}
+		case token.GEQ: // c >= b
+			if lb > a.I {
+				return false, true
+			}
+		case token.GTR: // c > b
+			if lb >= a.I {
+				return false, true
+			}
+		case token.LEQ: // c <= b
+			if lb >= a.I {
+				return true, true
+			}
+		}
+	}
+	return false, false
 }
 
 // SliceElems reads back the constant elements of a varargs slice built in the current frame.
@@ -1272,7 +1444,23 @@ func (m *Machine) doCall(st *State, fr *Frame, call ssa.CallInstruction) bool {
 			}
 		case "append":
 			nm := "append:" + fr.ID + ":" + val.Name()
+			// how long the result is at least: the list appended to, plus the elements written out at this call
+			lb := int64(0)
+			if len(args) == 2 {
+				if base, ok := m.lowerBound(st, AV{K: KSym, S: "len(" + args[0].S + ")"}); ok && args[0].K == KSym {
+					lb = base
+				}
+				if elems, ok := m.SliceElems(st, args[1]); ok {
+					lb += int64(len(elems))
+				}
+			}
+			if lb > 2 {
+				lb = 2 // "at least two" is all any rule asks; keeps the state space finite under loops
+			}
 			m.forget(st, nm)
+			if lb > 0 {
+				st.Facts["lenlb:"+nm] = IntV(lb)
+			}
 			res = Sym(nm)
 		}
 		m.Model.Instr(m, st, call, args)
@@ -1374,11 +1562,14 @@ func (m *Machine) doCall(st *State, fr *Frame, call ssa.CallInstruction) bool {
 	return true
 }
 
+// onStack: is fn already being explored on this path?  With Unroll > 0 a function may appear that many times (a walk
+// written as recursion is then unrolled like a loop; frames of the same function get distinct IDs).
 func (m *Machine) onStack(st *State, fn *ssa.Function) bool {
+	n := 0
 	for _, f := range st.Frames {
 		if f.Fn == fn {
-			return true
+			n++
 		}
 	}
-	return false
+	return n > m.Unroll
 }
